@@ -345,7 +345,7 @@ func (w *vworld) randMsg(signer string) vmsg {
 			m.Amt["u"] = 1_900_000_000 // overdraft
 		}
 		if signer == "v" && w.rng.Intn(2) == 0 {
-			m.Amt["u"] = int64(1_000_000 + w.rng.Intn(1_500_000)) // around the vesting account's spendable part
+			m.Amt["u"] = int64(500_000 + w.rng.Intn(2_500_000)) // around the vesting account's spendable part
 		}
 	case p < 50:
 		m.Kind, m.Fn, m.To = "call", "Mint", any()
@@ -386,7 +386,7 @@ func hasGrow(t *vtx) bool {
 }
 
 func (w *vworld) randTx(allowGrow bool) *vtx {
-	t := &vtx{Signer: w.pick("a", "b", "c", "v", "v", "x"), Fee: int64(50_000 + w.rng.Intn(200_000)), gw: 30_000_000}
+	t := &vtx{Signer: w.pick("a", "b", "c", "a", "c", "v", "v", "x"), Fee: int64(50_000 + w.rng.Intn(200_000)), gw: 30_000_000}
 	n := 1 + w.rng.Intn(3)
 	for k := 0; k < n; k++ {
 		m := w.randMsg(t.Signer)
@@ -502,15 +502,16 @@ func record(f *mbt.Flags) {
 		w.names[a] = n
 	}
 	w.gen = time.Unix(1_700_000_000, 0).UTC()
-	vEnd := int64(40 + rng.Intn(60))
+	// the vesting account's schedule outlasts a quick run and ends inside a thorough one; 1e6 * 2000 stays below 2^31 (TLC integers)
+	vEnd := int64(1500 + rng.Intn(500))
 	e, err := appenv.New(appenv.Options{
 		Time:     w.gen,
 		Balances: map[crypto.Address]int64{w.addrs["a"]: 300_000_000, w.addrs["b"]: 200_000_000, w.addrs["c"]: 250_000_000, w.addrs["dpl"]: 100_000_000},
 		Deployer: w.accts["dpl"],
 		Pkgs:     []appenv.Pkg{{Path: bankPath, Files: map[string]string{"bank.gno": bankSrc}}},
 		Mutate: func(gs *gnoland.GnoGenesisState) {
-			gs.Balances = append(gs.Balances, gnoland.Balance{Address: w.addrs["v"], Amount: std.Coins{{Denom: denomU, Amount: 6_000_000}},
-				Vesting: &std.VestingSchedule{OriginalVesting: std.Coins{{Denom: denomU, Amount: 4_000_000}}, StartTime: w.gen.Unix() + 10, EndTime: w.gen.Unix() + vEnd}})
+			gs.Balances = append(gs.Balances, gnoland.Balance{Address: w.addrs["v"], Amount: std.Coins{{Denom: denomU, Amount: 3_000_000}},
+				Vesting: &std.VestingSchedule{OriginalVesting: std.Coins{{Denom: denomU, Amount: 1_000_000}}, StartTime: w.gen.Unix() + 10, EndTime: w.gen.Unix() + vEnd}})
 		},
 	})
 	if err != nil {
